@@ -175,4 +175,14 @@ def explore(run, tier):
             rows.append(r)
         cases.append({'rows': rows, 'cols': table_cols, 'codec': codec, 'b': i % 2,
                       'cli': (tier == 'thorough' and i % 3 == 0) or i % 40 == 0})
+    # through the COMMAND entry points on real files: tables whose records are mostly blanks (0x40 in EBCDIC), so that an
+    # unblocked file has 0x40 0x40 where block trailers would be (offsets 1012-1013, 2026-2027, ...): the options given
+    # on the command line decide the format, not the content
+    if 'PDS0158' in cols:
+        for codec in ('cp500', 'cp037', 'latin_1'):
+            for b in (0, 1):
+                for width in (900, 950, 992):
+                    rows = [{'MTI': '1240', 'DE2': '5' * 16, 'PDS0158': 'X' + ' ' * (width - 2) + 'X'} for _ in range(6)]
+                    cases.append({'rows': rows, 'cols': ['MTI', 'DE2', 'PDS0158'], 'codec': codec, 'b': b, 'cli': True})
+                    cases.append({'rows': rows, 'cols': ['MTI', 'DE2', 'PDS0158'], 'codec': codec, 'b': b, 'cli': False})
     run.correspond(__name__, cases, use_model=run.use_model, chunk=12)
